@@ -37,9 +37,9 @@ add('C18', 'E-RUN+E-CAT', 'fault_enumeration',
     'The real maintenance.Update runs against a fake clickhouse.Conn with a modelled catalogue (E-CAT). For each of 10 deployment configurations every statement of the uninterrupted run is a fault point in three kinds (fails before effect; effect applied but error returned and connection dead; version write fails), followed by up to three restarts on the surviving catalogue; thorough adds a second fault at every statement of the first restart. Oracle: restarts complete, scripts applied in file order without gaps, a recorded version never ahead of completed scripts, final catalogue equal to the uninterrupted run, a further run executes no script.',
     'Trusted: E-CAT DDL model and ClickHouse error behaviour (codes 57/60/15...), one catalogue stands for the whole cluster. Fault kinds: before / after / version-write / refused / server-exception (incl. the distributed-DDL timeout). The rows of `ver` are node-local, definitions cluster-wide; in clustered configurations every start reaches the other of two nodes. Exhaustive over fault points of the enumerated configurations in the quick tier; triple faults are sampled.',
     'runtime fault enumeration on the real Update against a modelled catalogue, statement-log monitor', 'DESIGN §3 C18, Appendix B')
-add('C19', 'E-RUN+E-CAT', 'fault_enumeration',
-    'The real Update+Rotate run against E-CAT with a modelled settings table and per-table TTL / storage policy. Scenarios = deployment x sequences of 1-4 retention configurations (ttl days, 0-3 tiers with durations 1 s..100 y and disks, storage policy present/absent, clustered or not); every statement of every run is a fault point followed by restarts. Oracle: every data table ends with the configured TTL (tier moves clamped to >= 1 min / >= 1 day) and storage policy, markers written only after all tables of their group were altered, interrupted runs converge, a second run with unchanged configuration issues no ALTER.',
-    'Trusted: E-CAT model of ALTER ... MODIFY TTL/SETTING and of the settings table (argMax read semantics). Required values are computed from the configuration and the property text, not from the statements issued. Fault points complete per configuration; configurations sampled by the PRNG.',
+add('C19', 'E-RUN+E-CAT+E-CHTCP', 'fault_enumeration',
+    'The real Update+Rotate run against E-CAT with a modelled settings table and per-table TTL / storage policy. Scenarios = deployment x sequences of 1-4 retention configurations (ttl days, 0-3 tiers with durations 1 s..100 y and disks, storage policy present/absent, clustered or not); every statement of every run is a fault point followed by restarts. Oracle: every data table ends with the configured TTL (tier moves clamped to >= 1 min / >= 1 day) and storage policy, markers written only after all tables of their group were altered, interrupted runs converge, a second run with unchanged configuration issues no ALTER. Node lists go through ctrl.Rotate; every other one through the production RotateAll/rotateDB over the native protocol to one fake server per node in front of the node\'s catalogue, with tier timeouts in operators\' spellings.',
+    'Trusted: E-CAT model of ALTER ... MODIFY TTL/SETTING (incl. storage policies and their disks: TO DISK off-policy is refused, code 450) and of the settings table (argMax read semantics). Required values are computed from the configuration and the property text, not from the statements issued. Fault points complete per configuration; configurations sampled by the PRNG.',
     'runtime fault enumeration on the real Rotate against a modelled catalogue, statement-log monitor', 'DESIGN §3 C19, Appendix B')
 
 add('C06', 'E-RUN+gen+E-SQLDRV', 'exploration',
@@ -152,7 +152,7 @@ ENGINES = [
  {'name': 'E-SQLDRV', 'path': 'harness/engines/sqldrv', 'serves_properties': ['C06','C07','C08','C09','C10','C11','C12','C13','C14','C15','C17'], 'kind_free_text': 'scripted database/sql driver behind the reader seams (statement log, scripted rows, faults, open-rows tracking) and in-process assembly of the real reader routes'},
  {'name': 'E-RDCAT', 'path': 'harness/engines/rdcat', 'serves_properties': ['C12','C15'], 'kind_free_text': 'catalogue of the reader\'s 35 routes and 23 statement kinds with request, query-text and result-set generators (well-formed and hostile shapes) and strict response validators'},
  {'name': 'E-CHSQL', 'path': 'harness/engines/chsql', 'serves_properties': ['C07','C08','C09','C11','C13','C14','C16','C17'], 'kind_free_text': 'reference interpreter for the ClickHouse SQL subset the planners emit (oracle; self-tested against a corpus of captured statements)'},
- {'name': 'E-CHTCP', 'path': 'harness/engines/chtcp', 'serves_properties': ['C20'], 'kind_free_text': 'fake native-protocol ClickHouse TCP server (hello, ping, query log, INSERT exchange)'},
+ {'name': 'E-CHTCP', 'path': 'harness/engines/chtcp', 'serves_properties': ['C19','C20'], 'kind_free_text': 'fake native-protocol ClickHouse TCP server (hello, ping, query log, INSERT exchange; optional statement handler answering DDL and one-column SELECTs)'},
  {'name': 'E-REF logq', 'path': 'harness/engines/logq', 'serves_properties': ['C07','C08','C09','C13','C14'], 'kind_free_text': 'abstract LogQL model, direct reference evaluator, query/database generators, executor running the real planner chain over E-CHSQL'},
  {'name': 'E-LEX', 'path': 'harness/engines/lex', 'serves_properties': ['C10'], 'kind_free_text': 'ClickHouse token lexer and string/LIKE decoders (never fails on any byte string)'},
  {'name': 'gen', 'path': 'harness/engines/gen', 'serves_properties': ['C01','C02','C03','C04','C05','C06'], 'kind_free_text': 'ingest body generators (expected rows known by construction)'},
